@@ -1,5 +1,6 @@
 import D2P.Spec.Runs
 import D2P.Proofs.UnstyledWalk
+import D2P.Proofs.Paragraph
 /-!
 # The walk refines the run-string machine (html off)
 -/
@@ -85,6 +86,7 @@ structure In (s : DC) (k : Nat) (p : Par) : Prop where
   one : s.openPars = [p]
   leaf : countStrings (leafParsL s.root) = .ok k
   unst : Unst s
+  noq : s.queued = []
 
 def absS (s : DC) (p : Par) : RS := ⟨absP p, s.ranges⟩
 
@@ -101,7 +103,7 @@ theorem modTop_one (s : DC) (p : Par) (f : Par → Par) (h : s.openPars = [p]) :
   unfold DC.modTop; simp [h]
 
 theorem in_modTop {s : DC} {k : Nat} {p : Par} (h : In s k p) (f : Par → Par) (hu : Unst (s.modTop f)) : In (s.modTop f) k (f p) :=
-  ⟨(modTop_one s p f h.one).1, by rw [(modTop_one s p f h.one).2.1]; exact h.leaf, hu⟩
+  ⟨(modTop_one s p f h.one).1, by rw [(modTop_one s p f h.one).2.1]; exact h.leaf, hu, by rw [modTop_queued]; exact h.noq⟩
 
 /-- one step of the machine on the strings, the ranges untouched -/
 def StepR (s s' : DC) (k : Nat) (p : Par) (g : RState → RState) : Prop :=
@@ -173,7 +175,7 @@ theorem startRange_runs (s s' : DC) (k : Nat) (p : Par) (id : Str) (h : In s k p
   unfold DC.startRange at he
   rw [h.countRuns] at he
   have := pure_ok he; subst this
-  exact ⟨⟨h.one, h.leaf, hu⟩, rfl, rfl⟩
+  exact ⟨⟨h.one, h.leaf, hu, h.noq⟩, rfl, rfl⟩
 
 theorem endRange_runs (s s' : DC) (k : Nat) (p : Par) (id : Str) (h : In s k p) (he : s.endRange id = .ok s') :
     In s' k p ∧ s'.root = s.root ∧ absS s' p = (absS s p).stop k id := by
@@ -181,7 +183,7 @@ theorem endRange_runs (s s' : DC) (k : Nat) (p : Par) (id : Str) (h : In s k p) 
   unfold DC.endRange at he
   rw [h.countRuns] at he
   have := pure_ok he; subst this
-  exact ⟨⟨h.one, h.leaf, hu⟩, rfl, rfl⟩
+  exact ⟨⟨h.one, h.leaf, hu, h.noq⟩, rfl, rfl⟩
 
 theorem foldIds_start (k : Nat) (p : Par) : ∀ (ms : List Xml) (s s' : DC), In s k p → foldIds DC.startRange s ms = .ok s' →
     In s' k p ∧ s'.root = s.root ∧ foldMarkers (fun st id => st.start k id) (absS s p) ms = .ok (absS s' p)
